@@ -46,7 +46,7 @@ pub enum ChildResult {
 
 impl ChildWorker {
     pub fn start(mode: &str) -> Result<ChildWorker, String> {
-        let exe = std::env::current_exe().map_err(|e| e.to_string())?;
+        let exe = crate::own_exe();
         let mut cmd = Command::new(exe);
         cmd.arg(mode).stdin(Stdio::piped()).stdout(Stdio::piped()).stderr(Stdio::null());
         unsafe {
